@@ -455,6 +455,9 @@ protected:
         else
         {
            m_freeListHeadPtr = allocate(1);
+           // If constructing the value throws, this node stays at
+           // the head of the free list, so it must be terminated.
+           m_freeListHeadPtr->next = 0;
            newNode = m_freeListHeadPtr;
         }
 
